@@ -18,6 +18,7 @@ import (
 
 	"github.com/foxcpp/maddy/framework/config"
 	"github.com/foxcpp/maddy/internal/limits"
+	"github.com/foxcpp/maddy/internal/limits/limiters"
 )
 
 // Lim is one directive: concurrency N (Sem) or rate N <1h>.
@@ -166,6 +167,38 @@ func Tune(g *limits.Group, reap int, maxB int) {
 		}
 		bs.FieldByName("ReapInterval").Set(reflect.ValueOf(d))
 		bs.FieldByName("MaxBuckets").Set(reflect.ValueOf(maxB))
+	}
+}
+
+// AdvanceClock makes every bucket of the set look d older (the stand-in for the passage of time:
+// BucketSet reads time.Now() itself).
+func AdvanceClock(bs *limiters.BucketSet, d time.Duration) {
+	v := reflect.ValueOf(bs).Elem()
+	lck := field(v, "mLck").Addr().Interface().(interface {
+		Lock()
+		Unlock()
+	})
+	lck.Lock()
+	defer lck.Unlock()
+	it := v.FieldByName("m").MapRange()
+	for it.Next() {
+		b := it.Value().Elem()
+		lu := b.FieldByName("lastUse")
+		w := reflect.NewAt(lu.Type(), unsafe.Pointer(lu.UnsafeAddr())).Elem()
+		w.Set(reflect.ValueOf(w.Interface().(time.Time).Add(-d)))
+	}
+}
+
+// CloseGroup stops the refill goroutines of the group's rate limiters.
+func CloseGroup(g *limits.Group) {
+	defer func() { recover() }()
+	gv := reflect.ValueOf(g).Elem()
+	field(gv, "global").Addr().MethodByName("Close").Call(nil)
+	for _, n := range []string{"ip", "source", "dest"} {
+		p := field(gv, n)
+		if !p.IsNil() {
+			p.MethodByName("Close").Call(nil)
+		}
 	}
 }
 
